@@ -12,8 +12,9 @@ PROP = "C10"
 OPS = ("same-object/prune", "same-object/no-prune", "fresh-object/prune", "fresh-object/no-prune",
        "component/validate", "component/count",
        "debuglog-fresh-object/prune", "debuglog-fresh-object/no-prune",
-       "batch/run_games")      # batch/run_games: conditionalrewards.run_games on a one-entry dictionary holding the caller's description itself; component/*: check_game + init_states, count_transitions on the persistent object; debuglog-*: the solve runs with the
+       "batch/run_games", "foreign/finals", "foreign/regroup", "foreign/owners")      # foreign/*: both modes of a DIFFERENT description derived from this one are solved in between (the same graph with another final state; the same concatenated successors grouped differently into rows; the same rows with other owners); batch/run_games: conditionalrewards.run_games on a one-entry dictionary holding the caller's description itself; component/*: check_game + init_states, count_transitions on the persistent object; debuglog-*: the solve runs with the
 # root logger at DEBUG level (the tool's -l d option) - a configuration that must not change any result
+BASIC_SOLVES = OPS[:4]
 CPU = 0.3
 
 
@@ -37,10 +38,30 @@ def canon(x, depth=0):
 
 
 def module_state():
+    """non-callable module globals, class attributes and the default-argument tuples of functions and methods of tad, reverse_dfs and
+    conditionalrewards (the places where state can survive a call)"""
     out = []
-    for mod in (tad, reverse_dfs):
+    for mod in (tad, reverse_dfs, conditionalrewards):
         for name, val in sorted(vars(mod).items()):
-            if name.startswith("__") or callable(val) or isinstance(val, types.ModuleType):
+            if name.startswith("__") or isinstance(val, types.ModuleType):
+                continue
+            if isinstance(val, types.FunctionType):
+                if val.__defaults__:
+                    out.append((mod.__name__, name, "defaults", canon(val.__defaults__)))
+                continue
+            if isinstance(val, type):
+                if val.__module__ != mod.__name__:
+                    continue
+                for an, av in sorted(vars(val).items()):
+                    if an.startswith("__"):
+                        continue
+                    if isinstance(av, types.FunctionType):
+                        if av.__defaults__:
+                            out.append((mod.__name__, name, an, "defaults", canon(av.__defaults__)))
+                    elif not callable(av) and not isinstance(av, (staticmethod, classmethod, property)):
+                        out.append((mod.__name__, name, an, canon(av)))
+                continue
+            if callable(val):
                 continue
             out.append((mod.__name__, name, canon(val)))
     return tuple(out)
@@ -55,15 +76,46 @@ def outcome_of(fn):
     return ("exc", "%s: %s" % (type(val).__name__, val))
 
 
+def foreign_games(pristine):
+    """different well-formed descriptions that coincide with this one in an aspect a too coarse memo key might use"""
+    n = len(pristine["players"])
+    tl = pristine["transition_list"]
+    out = {}
+    absorbing = [s for s in range(n) if pristine["players"][s] == "Probabilistic" and len(tl[s]) == 1 and tl[s][0][1] == s]
+    other = [s for s in absorbing if s not in pristine["final_states"]]
+    if other:
+        out["finals"] = dict(copy.deepcopy(pristine), final_states=[other[0]])
+    # regroup: the last action of a player state moves to the front of the next state's row, if that is a player state too
+    for s in range(n - 1):
+        if pristine["players"][s] != "Probabilistic" and pristine["players"][s + 1] != "Probabilistic" and len(tl[s]) >= 2:
+            g = copy.deepcopy(pristine)
+            moved = g["transition_list"][s].pop()
+            g["transition_list"][s + 1].insert(0, ("moved", moved[1]))
+            out["regroup"] = g
+            break
+    swap = {"Player 1": "Player 2", "Player 2": "Player 1"}
+    if any(p in swap for p in pristine["players"]):
+        out["owners"] = dict(copy.deepcopy(pristine), players=[swap.get(p, p) for p in pristine["players"]])
+    return out
+
+
 class World:
     """the caller's description plus one persistent StochasticGame object built on it"""
 
     def __init__(self, pristine):
         self.desc = copy.deepcopy(pristine)
         self.sg = tad.StochasticGame(**self.desc)
+        self.foreign = foreign_games(pristine)
 
     def apply(self, op):
         where, mode = op.split("/")
+        if where == "foreign":
+            g = self.foreign.get(mode)
+            if g is None:
+                return ("skip",)
+            for prune in (True, False):
+                outcome_of(lambda: tad.StochasticGame(prune_states=prune, **copy.deepcopy(g)).solve())
+            return ("foreign",)
         if where == "batch":
             def fn():
                 res = conditionalrewards.run_games({"x": self.desc})
@@ -166,9 +218,10 @@ def explore(pristine, depth):
     frontier = collections.deque([()])
     transitions = 0
     closed = True
+    forced = set()
     while frontier:
         hist = frontier.popleft()
-        for op in OPS:
+        for op in (BASIC_SOLVES if hist in forced else OPS):
             w = World(pristine)
             for h in hist:
                 w.apply(h)
@@ -180,9 +233,11 @@ def explore(pristine, depth):
                                  "after the solve history %s the caller's description differs from what was passed in"
                                  % (list(hist) + [op],), list(hist) + [op]))
                 return findings, len(seen), transitions, False
-            if res[0] == "timeout" or res[:2] == ("batch", "timeout"):
+            if res[0] == "timeout" or res[:2] == ("batch", "timeout") or res[0] == "skip":
                 continue
-            if res[0] == "batch":
+            if res[0] == "foreign":
+                pass            # nothing to compare: the solves that follow must still equal the reference
+            elif res[0] == "batch":
                 why = batch_differs(res, ref)
                 if why:
                     findings.append(("C10/batch-result-differs", repr(res[1:])[:600], repr(ref)[:600],
@@ -206,6 +261,11 @@ def explore(pristine, depth):
                     frontier.append(hist + (op,))
                 else:
                     closed = False
+            elif res[0] == "foreign" and not hist:
+                # the observable state did not change, but state may hide where the snapshot does not look (closures, C-level caches):
+                # the four basic solves are explored after every foreign description anyway
+                forced.add(hist + (op,))
+                frontier.append(hist + (op,))
     return findings, len(seen), transitions, closed
 
 
@@ -289,7 +349,7 @@ def work(shard):
     return out
 
 
-RULE = ("for every stopping game of the listed universes: breadth-first exploration of all histories over the 9 operations ({same object, fresh "
+RULE = ("for every stopping game of the listed universes: breadth-first exploration of all histories over the 12 operations (three of them solve, in between, a different description derived from this one - another final state, successors regrouped into other rows, owners swapped - and nine act on the description itself: {same object, fresh "
         "object} x {pruned, unpruned} solves, check_game+init_states and count_transitions on the persistent object, fresh-object solves with the root logger at DEBUG level, and conditionalrewards.run_games on a one-entry dictionary holding the description itself, whose two entries must equal the solo results) on ONE caller-owned description, states = canonical deep snapshot of (description, persistent object's "
         "attributes, non-callable module globals of tad and reverse_dfs), de-duplicated; depth bound per tier; after every operation the "
         "description must equal the pristine copy and the result must equal (==) the result of that mode computed once in a forked fresh "
